@@ -149,6 +149,7 @@ class VSeq(V):
         self.elem = elem
         self.etype = etype
         self.concrete = concrete  # python list of V when the length is syntactically known
+        self.flat = None          # for lists of sequences: total number of elements (z3 Int), when tracked
     def __repr__(self): return f"VSeq(len={self.len}, {self.etype!r})"
 
     @staticmethod
@@ -164,7 +165,10 @@ class VSeq(V):
             for k in range(len(values) - 2, -1, -1):
                 res = ite(i == k, values[k], res)
             return res
-        return VSeq(len(values), elem, etype, concrete=values)
+        sq = VSeq(len(values), elem, etype, concrete=values)
+        if not values:
+            sq.flat = z3.IntVal(0)
+        return sq
 
 
 class VTuple(V):
@@ -275,8 +279,11 @@ def fresh(T_, name, idx=(), unique=True):
         return VOpt(_sym(z3.BoolSort(), name + "$none", idx), fresh(T_.inner, name, idx, unique=False))
     if isinstance(T_, TSeq):
         ln = _sym(z3.IntSort(), name + "$len", idx)
-        return VSeq(ln, lambda i, T_=T_, name=name, idx=idx: fresh(T_.elem, name + "$el", tuple(idx) + (i,), unique=False),
-                    T_.elem)
+        sq = VSeq(ln, lambda i, T_=T_, name=name, idx=idx: fresh(T_.elem, name + "$el", tuple(idx) + (i,), unique=False),
+                  T_.elem)
+        if isinstance(T_.elem, TSeq):
+            sq.flat = _sym(z3.IntSort(), name + "$flat", idx)
+        return sq
     if isinstance(T_, TTuple):
         return VTuple([fresh(t, f"{name}${k}", idx, unique=False) for k, t in enumerate(T_.elems)])
     if isinstance(T_, TRec):
